@@ -1529,6 +1529,9 @@ class AllConnGraph(nx.DiGraph):
                 if indices is None:
                     model._inputs._abs_set_val(node[1], tval)
                 else:
+                    if np.ndim(tval) > 0 and np.size(tval) == 1:
+                        # a single value may address a scalar entry (e.g. an int index)
+                        tval = np.ravel(tval)[0]
                     model._inputs._abs_set_val(node[1], tval, idx=indices())
         else:
             srcval = src_meta.val
